@@ -116,9 +116,9 @@ def read(o, kind, name):
                 cls.convert_stacked_vector_to_var(c, o.to_stacked_vector(), o.on_para_eq_constraint)]
     if name == "reps":
         if kind == "state":
-            return [o.vec, o.to_density_matrix(), o.to_density_matrix_with_sparsity(), o.calc_eigenvalues()]
+            return [o.vec, o.to_density_matrix(), o.to_density_matrix_with_sparsity(), o.calc_eigenvalues(), o.calc_proj_physical()]
         if kind == "povm":
-            return [list(o.vecs), o.matrices(), o.matrices_with_sparsity(), o.matrix(0), o.calc_eigenvalues()]
+            return [list(o.vecs), o.matrices(), o.matrices_with_sparsity(), o.matrix(0), o.calc_eigenvalues(), o.calc_proj_physical()]
         if kind == "lindbladian":
             return [o.hs, o.calc_h_mat(), o.calc_j_mat(), o.calc_k_mat(), o.calc_h_part(), o.calc_j_part(), o.calc_k_part(), o.calc_d_part(),
                     o.calc_k_part(mode_basis="comp_basis"), o.is_tp(), o.is_cp(), o.calc_k_mat()]
